@@ -1429,6 +1429,13 @@ class Model:
             for v in vals[1:]:
                 r = simp(S.Min(r, v) if which == "min" else S.Max(r, v))
             return r
+        if len(xs) == 2 and not kw and all(self.is_T(x) or isinstance(x, OptT) for x in xs):
+            # Python: min(x, y) = y if y < x else x ; max(x, y) = y if y > x else x   (TieredTime.__lt__ asserts equal lengths)
+            x, y = (self.unT(self.as_T(it, v, node)) for v in xs)
+            if not a.small:
+                it.check_raise(a.tlen(x) != a.tlen(y), "AssertionError", node, "TieredTime.__lt__ length assertion")
+            c = a.lt(y, x) if which == "min" else a.lt(x, y)
+            return self.T_(z3.If(c, y, x))
         if len(xs) == 2 and (self.is_D(xs[0]) or self.is_D(xs[1])):
             raise Unsupported("min/max of delays outside a contract")
         return NotImplemented
@@ -1585,6 +1592,9 @@ class Model:
         p = it.p
         h = p.ghost["heap"]
         lab = it.oid(node)
+        if hasattr(top, "wait_obligations"):
+            for name, g in top.wait_obligations(it, coro, h).items():
+                p.oblige(f"{lab}:wait:{name}", "cut", g, it.where(node), f"what is awaited here can become true: {name}")
         for name, g in top.at_cut(it, h).items():
             p.oblige(f"{lab}:cut:{name}", "cut", g, it.where(node), f"at this await: {name}")
         old = dict(h)
